@@ -356,6 +356,10 @@ def translator_keys():
 # --------------------------------------------------------------------------- runtime glue (C02 C03 C10 C11): pinned text
 PINS_FILE = os.path.join(os.path.dirname(os.path.abspath(__file__)), "pins.json")
 PIN_MODULES = ["service", "meta_runner", "base_runner", "asyncio_runner", "trio_runner", "thread_runner"]
+# further transcribed code without a translation of its own: the `>>` algebra (C04), the formatters (C17), the YAML
+# constructors (C05 C18), the Python configuration loader (C13), the constraints decorator (C14)
+PIN_MODULES_OTHER = {"partial": "cobald.interfaces._partial", "format_line": "cobald.monitor.format_line", "format_json": "cobald.monitor.format_json",
+                     "yaml": "cobald.daemon.config.yaml", "python": "cobald.daemon.config.python", "plugins": "cobald.daemon.plugins"}
 
 
 def _is_log(st):
@@ -396,8 +400,9 @@ def runtime_texts():
     """qualified name -> normalised text of every function of the runner modules"""
     import importlib
     out = {}
-    for mod in PIN_MODULES:
-        m = importlib.import_module("cobald.daemon.runners." + mod)
+    mods = [(mod, "cobald.daemon.runners." + mod) for mod in PIN_MODULES] + sorted(PIN_MODULES_OTHER.items())
+    for mod, full in mods:
+        m = importlib.import_module(full)
         tree = _Strip().visit(ast.parse(inspect.getsource(m)))
         ast.fix_missing_locations(tree)
 
